@@ -541,6 +541,50 @@ def run(ctx):
                        'end lies inside (before the end of) the last child: the parent no longer covers its children'
                        % (role, unparse(x_)), construct='%s: %s' % (getattr(fq, '_qualname', getattr(fq, 'name', '?')), role))
 
+    # ---- R01t: the text of a char token is the source at its span
+    ctx.rule('R01t', 'LatexTokenReader: every token of kind char is built with the source slice of its own span as text '
+                     '(`s[P:E]` with pos=P and pos_end=E, `s[P]` with pos_end=P+1, or the text it was handed together with '
+                     'its span), locals expanded: a literal in its place (a normalised paragraph break) makes the chars node '
+                     'differ from the source it covers', 3)
+    n_ct = 0
+    for q_, f_ in sorted(trm.functions.items()):
+        if not q_.startswith('LatexTokenReader.'):
+            continue
+        try:
+            tcs = symex.Walker(is_sink=lambda c_: call_name(c_) == 'make_token' and kwarg(c_, 'tok') is not None
+                               and isinstance(kwarg(c_, 'tok'), ast.Constant) and kwarg(c_, 'tok').value == 'char'
+                               and kwarg(c_, 'arg') is not None and kwarg(c_, 'pos') is not None
+                               and kwarg(c_, 'pos_end') is not None).run(f_)
+        except symex.TooManyPaths:
+            continue
+        seen_t = set()
+        params_ = {a_.arg for a_ in f_.args.args}
+        for cs in tcs:
+            a_ = symex.expand(kwarg(cs.sub, 'arg'), cs.env)
+            p_ = unparse(symex.expand(kwarg(cs.sub, 'pos'), cs.env))
+            e_ = unparse(symex.expand(kwarg(cs.sub, 'pos_end'), cs.env))
+            ok = False
+            if isinstance(a_, ast.Subscript) and unparse(a_.value) in ('s', 'self.s'):
+                if isinstance(a_.slice, ast.Slice):
+                    ok = a_.slice.lower is not None and a_.slice.upper is not None and \
+                        unparse(a_.slice.lower) == p_ and unparse(a_.slice.upper) == e_
+                else:
+                    ok = unparse(a_.slice) == p_ and e_.replace(' ', '') == (p_ + '+1').replace(' ', '')
+            elif isinstance(a_, ast.Name) and a_.id in params_ and p_ in params_ and e_ in params_:
+                ok = True       # text and span handed in together (checked at the caller)
+            key_ = (unparse(a_), p_, e_)
+            if key_ in seen_t:
+                continue
+            seen_t.add(key_)
+            n_ct += 1
+            ctx.decide('R01t', ok, trm, cs.node, '%s: char token text %s over [%s, %s)' % (q_, short(a_, 30), p_[:30], e_[:30]),
+                       '%s builds a char token with the text %s over the span [%s, %s): that is not the source slice of the '
+                       'span, so the chars node made from it carries text that differs from the input at its position (a '
+                       'paragraph break written as newline-blank-tab-newline comes out as two newlines)'
+                       % (q_, short(a_, 40), p_[:50], e_[:50]), construct='%s: char token text %s' % (q_, short(a_, 30)))
+    if n_ct < 3:
+        ctx.unknown('R01t', trm, None, 'only %d char-token constructions found' % n_ct, construct='char token text')
+
     # ---- R01s: the marker text is the whole text of the tokens it spans
     ctx.rule('R01s', 'LatexOptionalCharsMarkerParser: what is added to the marker text for a token is the whole text of that token '
                      '(tok.arg, or the characters of a specials token), on every path of the reading loop: the chars node ends at '
